@@ -536,6 +536,92 @@ func ruleSchema(r *Run) {
 		})
 	}
 
+	// …or a slot selector: a helper that is handed the element name and the addresses of several
+	// fields and returns the address that goes with the name
+	// (slot := boxSide(t.Name.Local, &b.Top, &b.Left, &b.Bottom, &b.Right); *slot = v)
+	for _, f := range m.Funcs {
+		allInstrs(f, func(in ssa.Instruction) {
+			c, ok := in.(*ssa.Call)
+			if !ok {
+				return
+			}
+			h := staticCallee(c)
+			if h == nil || !p.inModule(h) || len(h.Blocks) == 0 || h.Signature.Results().Len() != 1 {
+				return
+			}
+			if _, isPtr := h.Signature.Results().At(0).Type().Underlying().(*types.Pointer); !isPtr {
+				return
+			}
+			// the result is stored through (directly or after a phi with other slots)
+			storedThrough := false
+			seenV := map[ssa.Value]bool{}
+			var follow func(v ssa.Value, d int)
+			follow = func(v ssa.Value, d int) {
+				if d > 3 || seenV[v] || v.Referrers() == nil {
+					return
+				}
+				seenV[v] = true
+				for _, u := range *v.Referrers() {
+					switch y := u.(type) {
+					case *ssa.Store:
+						if y.Addr == v {
+							storedThrough = true
+						}
+					case *ssa.Phi:
+						follow(y, d+1)
+					}
+				}
+			}
+			follow(c, 0)
+			if !storedThrough {
+				return
+			}
+			for _, cmp := range strCompares(h) {
+				sp, ok := cmp.Operand.(*ssa.Parameter)
+				if !ok || sp.Parent() != h {
+					continue
+				}
+				si := paramIndex(h, sp)
+				if si < 0 || si >= len(c.Call.Args) {
+					continue
+				}
+				if !isStartElemNameLocal(c.Call.Args[si]) && !paramIsElemName(p, f, c.Call.Args[si]) {
+					continue
+				}
+				for b := range cmp.Region {
+					for _, in2 := range b.Instrs {
+						ret, ok := in2.(*ssa.Return)
+						if !ok || len(ret.Results) != 1 {
+							continue
+						}
+						pp, ok := ret.Results[0].(*ssa.Parameter)
+						if !ok {
+							continue
+						}
+						pj := paramIndex(h, pp)
+						if pj < 0 || pj >= len(c.Call.Args) {
+							continue
+						}
+						fa, ok := c.Call.Args[pj].(*ssa.FieldAddr)
+						if !ok {
+							continue
+						}
+						fv, _ := fieldOfAddr(fa)
+						if fv == nil {
+							continue
+						}
+						if elemCov[fv] == nil {
+							elemCov[fv] = map[string]cov{}
+						}
+						if _, ok := elemCov[fv][cmp.Const]; !ok {
+							elemCov[fv][cmp.Const] = cov{f, c.Pos()}
+						}
+					}
+				}
+			}
+		})
+	}
+
 	// attribute stores: trace stored values to attribute lookups
 	type attrSrc struct {
 		name string
